@@ -10,8 +10,8 @@
    interleaved run with any number of workers is, path by path, a crash state of one task's own program
    (C09_crash_decomposes). *)
 From Coq Require Import NArith ZArith List Bool.
-From SyModel Require Import Engine Temp Crash.
-From SyProofs Require Import Temp_proofs Crash_proofs.
+From SyModel Require Import Engine Temp Crash Inodes.
+From SyProofs Require Import Temp_proofs Crash_proofs Inodes_proofs.
 Import ListNotations.
 
 (* every destination file not being written at that instant is intact: whatever the interleaving and the crash point,
@@ -48,6 +48,28 @@ Theorem C09_recovery_converges : forall c e now now' p p' s k,
   cs_temp (rerun c e now' p' (crash_state e now p k s)) = CAbsent.
 Proof. exact recovery_converges. Qed.
 Print Assumptions C09_recovery_converges.
+
+(* the pass that moves the names of a multiply-linked source file back onto one inode after their updates (-H): each re-link is a
+   hard link under the working name followed by a rename over the name (Model/Inodes.v relink_prog, anchor HL_RELINK_SHAPE).  Killed
+   before ANY of its calls the name exists and is on its old or on the kept inode -- both hold complete files --, every other name
+   is untouched, and the completed program is the model's link_to *)
+Theorem C09_relink_old_or_new : forall k q i s j,
+  r_names s q = Some j ->
+  (r_names (rprefix k (relink_prog q i) s) q = Some j \/ r_names (rprefix k (relink_prog q i) s) q = Some i) /\
+  (forall p, p <> q -> r_names (rprefix k (relink_prog q i) s) p = r_names s p).
+Proof. exact relink_prog_old_or_new. Qed.
+Print Assumptions C09_relink_old_or_new.
+
+Theorem C09_relink_refines_link_to : forall q i s (ds : dstate),
+  r_tmp s = None -> (forall p, r_names s p = d_names ds p) ->
+  forall p, r_names (rprefix 2 (relink_prog q i) s) p = d_names (link_to ds q i) p.
+Proof. exact relink_prog_is_link_to. Qed.
+Print Assumptions C09_relink_refines_link_to.
+
+(* the variant "unlink the name, then link it" (seed C09-4): killed between the two calls the name does not exist *)
+Theorem C09_relink_unlink_first_refuted : forall q i s, r_names (rprefix 1 (relink_prog_unlink_first q i) s) q = None.
+Proof. exact relink_unlink_first_refuted. Qed.
+Print Assumptions C09_relink_unlink_first_refuted.
 
 (* non-vacuity: the call sequences observed on the real binary are in the classes, for a 200000-byte source *)
 Definition ex_e : sentry := mk_sentry [1%N] false 200000 1600000000000000000 7 false.
